@@ -1,23 +1,28 @@
 (* Properties/C02.v — a value written on the command line is the value the field receives. *)
 From Coq Require Import Permutation.
 From SPV Require Import Base.Str Model.Leaf Model.LeafSpec Model.Namespace Gen.FactsBool Gen.FactsLeaf
-                        Proofs.LeafProofs Proofs.NamespaceProofs.
+                        Proofs.LeafProofs Proofs.FloatProofs Proofs.LeafRoundtrip Proofs.NamespaceProofs.
 
-(* One field, every type of the CLI grammar except float (see C02_float_instances), every value of that type:
-   the canonical tokens written after the option come back as exactly that value (same constructor = same Python type).
-   The model is instantiated with the regenerated vocabulary and converter facts. *)
-Theorem C02_leaf_roundtrip_partial : forall t v toks,
-  cli_type t = true -> nofloat t = true -> has_type v t = true -> canon t v = Some toks ->
+(* One field, EVERY type of the CLI grammar (int, float, str, bool, Path, Enum, Literal, lists, fixed and variadic tuples,
+   Optional of these), every well-typed value in normal form: the canonical tokens written after the option come back as
+   exactly that value (same constructor = same Python type).  `value_wf` only says that floats are exact decimals in normal
+   form (no trailing zero digit, no negative zero).  The model is instantiated with the regenerated vocabulary and converters. *)
+Theorem C02_leaf_roundtrip : forall t v toks,
+  cli_type t = true -> value_wf v = true -> has_type v t = true -> canon t v = Some toks ->
   leaf_parse_gen t toks = Ok v.
 Proof. exact leaf_roundtrip. Qed.
-Print Assumptions C02_leaf_roundtrip_partial.
+Print Assumptions C02_leaf_roundtrip.
 
-(* the int() round trip underneath: every integer, of any size *)
+(* the int() and float() round trips underneath: every integer of any size, every exact decimal *)
 Theorem C02_int_roundtrip : forall z, py_int (show_int z) = Some z.
 Proof. exact py_int_show. Qed.
 Print Assumptions C02_int_roundtrip.
+Theorem C02_float_roundtrip : forall neg ip frac,
+  flt_wf neg ip frac -> py_float (show_float neg ip frac) = Some (VFlt neg ip frac).
+Proof. exact py_float_show. Qed.
+Print Assumptions C02_float_roundtrip.
 
-(* floats: not proved for all decimals; the float() model is validated by correspondence and these instances *)
+(* exponent spellings (what repr prints for very small / large floats) are covered by instances and by the correspondence *)
 Example C02_float_instances :
   py_float "1.5" = Some (VFlt false 1 "5") /\ py_float "-0.25" = Some (VFlt true 0 "25")
   /\ py_float "1e-05" = Some (VFlt false 0 "00001") /\ py_float (show_float false 12345 "678") = Some (VFlt false 12345 "678")
@@ -48,9 +53,9 @@ Proof. exact unmentioned_keeps_default. Qed.
 Print Assumptions C02_unmentioned_keeps_default.
 
 Example C02_nonvacuous :
-  let t := TOpt (TTupFix [TInt; TStr; TEnum ["RED"; "GREEN"]]) in
-  let v := VTup [VInt (-12345678901234567890); VStr "x y"; VEnum "GREEN"] in
-  cli_type t = true /\ nofloat t = true /\ has_type v t = true
-  /\ canon t v = Some ["-12345678901234567890"; "x y"; "GREEN"]
-  /\ leaf_parse_gen t ["-12345678901234567890"; "x y"; "GREEN"] = Ok v.
+  let t := TOpt (TTupFix [TInt; TStr; TEnum ["RED"; "GREEN"]; TFloat]) in
+  let v := VTup [VInt (-12345678901234567890); VStr "x y"; VEnum "GREEN"; VFlt true 0 "25"] in
+  cli_type t = true /\ value_wf v = true /\ has_type v t = true
+  /\ canon t v = Some ["-12345678901234567890"; "x y"; "GREEN"; "-0.25"]
+  /\ leaf_parse_gen t ["-12345678901234567890"; "x y"; "GREEN"; "-0.25"] = Ok v.
 Proof. vm_compute. repeat split; reflexivity. Qed.
